@@ -519,7 +519,7 @@ class Inliner:
         locals_ = set(rename.values()) | (_stores(fn) - set(binding) - set(rename))
         if has_ret:
             body = _eliminate_returns(body, target_stmt_builder)
-            return pre + _tidy_inlined(body, locals_)
+            return _tidy_inlined(pre + body, locals_ | {t.targets[0].id for t in pre})
         return pre + body + [target_stmt_builder(ast.Constant(value=None))]
 
     def run(self):
